@@ -379,6 +379,44 @@ pub fn run(ctx: &Ctx) {
     }
   });
   ctx.subspace(&format!("(3) 997-second lattice across {} whole Jie-to-Jie span(s) + one birth per day of the years before the 1582 cut-over ({} instants) x 2 genders x 4 strategies", spans.len(), lattice.len()), done, lattice.len() as u64 * 2);
+  // (4) limits that end around the end of February of a century year (where the Julian and Gregorian leap rules differ):
+  // one birth per day (10:30:00) of the 11 years before the century year, kept when the model end of any strategy falls in
+  // 1 Feb..15 Mar of that year
+  let cents: Vec<i32> = if ctx.quick() { vec![1500, 1700, 1800, 2000, 2200, 3000, 4000] } else { (1..=99).map(|c| c * 100).collect() };
+  let mut sel: Vec<(i64, bool)> = Vec::new();
+  for &cy in &cents {
+    let lo = civ.ord(cy, 2, 1).unwrap() as i64 * 86400;
+    let hi = civ.ord(cy, 3, 15).unwrap() as i64 * 86400 + 86399;
+    let (a, b) = civ.year_range(cy - 11, cy);
+    for o in a..b {
+      let birth = o as i64 * 86400 + 10 * 3600 + 30 * 60;
+      let g = match tm.g_of_inst(birth) {
+        Some(g) => g,
+        None => continue,
+      };
+      let (y, _, gj) = ym_of_g(g);
+      if y < 1 {
+        continue;
+      }
+      for man in [true, false] {
+        let forward = (year_pillar(y) % 2 == 0) == man;
+        let jie = tm.t[if forward { gj + 2 } else { gj }].inst;
+        if jie == i64::MIN {
+          continue;
+        }
+        let hit = [Strat::Default, Strat::China95, Strat::Sect1, Strat::Sect2].iter().any(|st| add_calendar(&civ, birth, counts(*st, &civ, birth, jie)).iter().any(|e| *e >= lo && *e <= hi));
+        if hit {
+          sel.push((birth, man));
+        }
+      }
+    }
+  }
+  let done = par_chunks(ctx, 0, sel.len(), 16, |a, b, l| {
+    for k in a..b {
+      check_case(ctx, &civ, &tm, sel[k].0, sel[k].1, l);
+    }
+  });
+  ctx.subspace(&format!("(4) births (one per day, 10:30:00, of the 11 years before each of {} century years {}) whose model limit ends in 1 Feb..15 Mar of the century year: {} (birth, gender) cases x 4 strategies", cents.len(), if ctx.quick() { format!("{:?}", cents) } else { "100..9900".to_string() }, sel.len()), done, sel.len() as u64);
   if ctx.primary() {
     let b = civ.ord(1989, 12, 31).unwrap() as i64 * 86400 + 23 * 3600 + 7 * 60 + 17;
     let g = tm.g_of_inst(b).unwrap();
